@@ -1,5 +1,5 @@
 """C05 translator: cssutils/cssproductions.py (MACROS, PRODUCTIONS), cssutils/tokenize2.py (at-keyword table,
-unicodesub / cleanstring patterns, the literal constants used by Tokenizer.tokenize) and cssutils/helper.py
+unicodesub / stringsub patterns, the literal constants used by Tokenizer.tokenize) and cssutils/helper.py
 (_simpleescapes) -> lean/CssVerif/Gen/C05Productions.lean.
 
 Everything is read with `ast` (no import of cssutils); the macro expansion is re-implemented here and
@@ -159,12 +159,13 @@ def extract(repo):
         raise TranslateError('_atkeywords is not a dict display')
     atkeywords = [(_lit(k), sym(v)) for k, v in zip(akw.keys, akw.values)]
     unicodesub = _compiled_pattern(_class_assign(tcls, 'unicodesub'), 'unicodesub')
-    cleanstring = _compiled_pattern(_class_assign(tcls, 'cleanstring'), 'cleanstring')
+    stringsub = _compiled_pattern(_class_assign(tcls, 'stringsub'), 'stringsub')
     linesep = _lit(_class_assign(tcls, '_linesep'))
     simpleescapes = _compiled_pattern(_module_assign(htree, '_simpleescapes'), '_simpleescapes')
 
     # literal constants inside Tokenizer.tokenize, by syntactic shape only (local variable names are not looked at,
     # so renaming a local does not disturb the translation)
+    nametuples = []
     fast, unesc, clean, ends, hasat, andword, urlfn, cpl, charset_kw, charset_sym = [], [], [], [], [], [], [], [], [], []
 
     def str_tuple(node):
@@ -179,7 +180,7 @@ def extract(repo):
                 fast.append(right.value)                                 # c in ',:;{}>[]'
             elif isinstance(op, ast.In) and isinstance(left, ast.Name) and str_tuple(right):
                 t = tuple(_lit(right))                                   # name in (...)
-                (unesc if len(t) > 2 else clean).append(t)
+                nametuples.append(t)
             elif isinstance(op, ast.NotEq) and isinstance(left, ast.Call) and isinstance(left.func, ast.Attribute) \
                     and left.func.attr == 'lower' and isinstance(right, ast.Constant):
                 andword.append(right.value)                              # found.lower() != "and"
@@ -198,6 +199,18 @@ def extract(repo):
             cpl.append(node.left.value[2:])                              # '%s*/' % text[pos:]
         elif isinstance(node, ast.Attribute) and isinstance(node.value, ast.Name) and node.value.id == 'CSSProductions':
             charset_sym.append(sym(node))                                # CSSProductions.CHARSET_SYM
+    # `name in (...)`: the larger tuple lists the unescaped types, the other one (a subset) the string-like types
+    distinct = []
+    for t in nametuples:
+        if t not in distinct:
+            distinct.append(t)
+    if len(distinct) != 2:
+        raise TranslateError('`name in (...)` tuples: expected 2 distinct, found %r' % (distinct,))
+    distinct.sort(key=len)
+    if len(distinct[0]) == len(distinct[1]) or not set(distinct[0]) <= set(distinct[1]):
+        raise TranslateError('string-like types %r are not a proper subset of the unescaped types %r' % tuple(distinct))
+    clean.append(distinct[0])
+    unesc.append(distinct[1])
     # has_at constants in source order: '@charset ', '/*', ' '
     hasat_set = []
     for h in hasat:
@@ -210,11 +223,11 @@ def extract(repo):
     charset_sep = _one([h for h in hasat_set if not h.startswith('@') and not h.startswith('/')], 'has_at separator')
     res = {
         'macros': macros, 'productions': productions, 'atkeywords': atkeywords,
-        'unicodesub': unicodesub, 'cleanstring': cleanstring, 'simpleescapes': simpleescapes,
+        'unicodesub': unicodesub, 'stringsub': stringsub, 'simpleescapes': simpleescapes,
         'linesep': linesep,
         'fast': _one(fast, 'fast-path character set'),
         'unesc_types': _one(unesc, 'unescaped token types'),
-        'clean_types': _one(clean, 'cleanstring token types'),
+        'clean_types': _one(clean, 'string-like token types'),
         'uri_ends': _one(ends, 'url( completion endings'),
         'and_word': _one(andword, 'IDENT exception word'),
         'url_fn': _one(urlfn, 'url( function name'),
@@ -264,7 +277,7 @@ def build(repo):
     if names[0] != 'BOM':
         raise TranslateError('first production is not BOM (tokenize2.py:136 takes tokenmatches[0])')
     d['re_unicodesub'] = relib.parse(*d['unicodesub'])
-    d['re_cleanstring'] = relib.parse(*d['cleanstring'])
+    d['re_stringsub'] = relib.parse(*d['stringsub'])
     d['re_simpleescapes'] = relib.parse(*d['simpleescapes'])
     h = hashlib.sha256()
     for s in SOURCES:
@@ -293,7 +306,7 @@ def build(repo):
     L.append('def uriRe : Re := %s' % ident('URI'))
     L.append('')
     L.append('def unicodesubRe : Re := %s' % relib.tolean(d['re_unicodesub']))
-    L.append('def cleanstringRe : Re := %s' % relib.tolean(d['re_cleanstring']))
+    L.append('def stringsubRe : Re := %s' % relib.tolean(d['re_stringsub']))
     L.append('def simpleescapesRe : Re := %s' % relib.tolean(d['re_simpleescapes']))
     L.append('')
     L.append('def atkeywords : List (List Nat × String) := [%s]'
@@ -340,7 +353,7 @@ def crosscheck(d):
     if list(tk.Tokenizer._atkeywords.items()) != d['atkeywords']:
         problems.append('_atkeywords differ')
     for nm, obj, mine in (('unicodesub', tk.Tokenizer.unicodesub, d['unicodesub']),
-                          ('cleanstring', tk.Tokenizer.cleanstring, d['cleanstring']),
+                          ('stringsub', tk.Tokenizer.stringsub, d['stringsub']),
                           ('_simpleescapes', hp._simpleescapes, d['simpleescapes'])):
         if obj.__self__.pattern != mine[0] or (obj.__self__.flags & ~re.U) != (mine[1] & ~re.U):
             problems.append('%s pattern differs' % nm)
